@@ -26,7 +26,7 @@ ASSUMPTIONS = [
     "values are chosen so that they cannot be mistaken for items (non-integral); items-only headers are used only where item sets differ",
 ]
 
-DIMSETS = [["t"], ["r"], ["t", "r"], ["r", "t"], ["t", "r", "m"], ["m", "t", "s"], ["s", "r"], ["T", "m"], ["y", "r", "t"], ["g", "t"], ["m", "r"]]
+DIMSETS = [["t"], ["r"], ["t", "r"], ["r", "t"], ["t", "r", "m"], ["m", "t", "s"], ["s", "r"], ["T", "m"], ["y", "r", "t"], ["g", "t"], ["m", "r"], ["Y"], ["Y", "r"]]
 
 
 def values_for(n, k):
@@ -86,6 +86,20 @@ def generate(tier, rng):
             for li, lay in enumerate([l for l in layouts(ds, tier, k) if not l["csv"] and l["header"] != "items"][:: 5 if tier == "quick" else 2]):
                 i, j = [(0, n - 1), (n - 1, 0), (1, n // 2 + 1 if n // 2 + 1 != 1 else 0)][li % 3]
                 cases.append(dict(stream="malformed", kind="import", dims=ds, values=nz, layout=lay, relabel=[i, j]))
+    # values that coincide with the items of an integer dimension of the array (counts 0, 1, 2 over ages 0, 1, 2), all of them,
+    # some of them, one of them: the value column must not be taken for a column of that dimension
+    for names in (["A"], ["A", "r"], ["r", "A"], ["A", "m", "s"]):
+        ds = [DIMPOOL[x] for x in names]
+        n = int(np.prod([len(d["items"]) for d in ds]))
+        for pat, vals in (("all items", [str((i * 2 + i // 3) % 3) for i in range(n)]), ("some items", [str(i % 2) for i in range(n)]),
+                          ("one item", ["1"] * n), ("zeros", ["0"] * n)):
+            for index in (True, False):
+                for d2c in [None] + ([ds[-1]["name"]] if len(ds) > 1 else []):
+                    cases.append(dict(stream="exact", kind="direct", dims=ds, values=vals, index=index, dim_to_columns=d2c, sparse=False))
+            cases.append(dict(stream="exact", kind="import", dims=ds, values=vals,
+                              layout=dict(where="columns", wide=None, header="names", omit_single=False, value_name="value", row_perm=None, col_perm=None, csv=False)))
+            cases.append(dict(stream="exact", kind="import", dims=ds, values=vals,
+                              layout=dict(where="index", wide=None, header="letters", omit_single=False, value_name="amount", row_perm=7, col_perm=None, csv=False)))
     big = dict(letter="x", name="index40k", items=list(range(40000)), dtype="int")
     cases.append(dict(stream="exact", coq=False, kind="import", dims=[big], values=[str(Fraction(i % 97) + Fraction(1, 4)) for i in range(40000)],
                       layout=dict(where="columns", wide=None, header="names", omit_single=False, value_name="value", row_perm=None, col_perm=None, csv=False)))
